@@ -158,12 +158,12 @@ fn run(ctx: &Ctx) {
          with p,q in [211,4000) on all ten selectors; composites at the top of the u64 range and 57..64-bit semiprimes on the \
          64-bit selectors; all integers within a few units of 2^52, 2^64, 2^80, 2^128; 480..512-bit primes, prime powers, \
          smooth*prime; 513..1023-bit inputs that must be refused); plus proptest-generated composites of 14 shapes within each \
-         selector's size precondition and time budget, default preferences and threads in {None,2}. Each case runs in a worker \
+         selector's size precondition and time budget, default preferences, threads in {None,2} and use_double in {None,true,false}. Each case runs in a worker \
          subprocess under the opt and the chk profile. Non-trivial = the selector's algorithm ran (>= 2 prime factors above 199, \
          or unknown factorisation above 16 bits); distinct by (profile, selector, n, prefs).",
     );
     ctx.assume("termination is checked up to a per-case watchdog (120 s quick / 600 s thorough); a watchdog hit is inconclusive, not a violation");
-    ctx.assume("preferences are the defaults plus threads in {None, 2}: the property quantifies over inputs, selectors and profiles");
+    ctx.assume("preferences are the defaults plus threads in {None, 2} and the documented double-large-prime switch in {None, true, false}; tuning overrides (factor-base size, interval, large-prime multiplier) are outside the property");
     ctx.assume("the 501..512-bit band is probed: acceptance is recorded, only a panic or a wrong result is flagged");
     let quick = ctx.quick();
     let timeout = ctx.pick(120.0, 600.0);
@@ -192,6 +192,15 @@ fn run(ctx: &Ctx) {
             for (j, c) in cases.iter_mut().enumerate() {
                 if j % 4 == 3 && matches!(*a, "siqs" | "auto" | "mpqs" | "qs" | "ecm") {
                     c.prefs.threads = Some(2);
+                }
+                // the double-large-prime switch is a documented user option (ymqs --use-double), not a tuning
+                // override: both settings must be total (relation chains only appear with it at these sizes)
+                if matches!(*a, "siqs" | "auto" | "mpqs" | "qs") {
+                    c.prefs.use_double = match j % 5 {
+                        1 | 2 => Some(true),
+                        3 => Some(false),
+                        _ => None,
+                    };
                 }
             }
             run_batch(ctx, &check, profile, &cases, timeout, &judge, &mut l);
